@@ -541,22 +541,25 @@ Definition put_answer (o : option (option (option view))) : val :=
   | Some (Some a) => vopt vN a
   end.
 
-(* case = [sro table; initial registrations; operations; answer tables of the request operations]
+(* case = [sro table; initial registrations; operations; answer tables of the request operations; foreign registry?]
    answer = [threads; spawn ids; final cache; expectations; final quiet; final table; trace length;
              model answers; expected answers] *)
 Definition run_C15 (v : val) : val :=
   ret_or_bad (
     match v with
-    | VL [tbl; r0; VL ops; ans] =>
+    | VL [tbl; r0; VL ops; ans; foreign] =>
         olet tbl := get_list_of get_sro_entry tbl in
         olet ans := get_list_of get_answers ans in
+        olet foreign := get_bool foreign in
+        (* a registry that is not a pyramid Registry clears its cache with the function _fix_registry installed *)
+        let rprog := if foreign then register_prog_fallback else register_prog in
         olet r0 := get_list_of get_update r0 in
         olet ops := map_opt (get_op 12) ops in
         let sro := assoc_sro tbl in
         let st0 := init (rapply r0 []) in
-        let '(st, rtr, rids) := run_ops sro cache_key_mode lookup_prog register_prog 12 ops (st0, [], []) in
+        let '(st, rtr, rids) := run_ops sro cache_key_mode lookup_prog rprog 12 ops (st0, [], []) in
         let tr := rev rtr in
-        let ex := expect sro cache_key_mode lookup_prog register_prog st0 tr (fun _ => None) in
+        let ex := expect sro cache_key_mode lookup_prog rprog st0 tr (fun _ => None) in
         let keys := dkeys (map (fun k => (k, [])) (flat_map (op_keys 12) ops)) [] in
         Some (VL [VL (map (fun i => put_thread (threads st i)) (range (ntid st)));
                   VL (map vN (rev rids));
